@@ -68,6 +68,24 @@ func (c *Ctx) followPool() (pool [][]byte, classes []string) {
 			classes = append(classes, "number-follow")
 		}
 	}
+	// ... and every kind of multi-byte rune after each number shape and inside containers: digits, letters, spaces and
+	// punctuation of other scripts are not JSON digits / letters / whitespace (helpers that classify by rune instead of
+	// by byte would accept them)
+	runes := []string{"\u0663", "\u0969", "\uff11", "\U0001d7d1", "\u00b2", "\u2002", "\u00a0", "\u3000", "\u2028", "\ufeff", "\uff0c", "\uff3d", "\u00e9", "\uff45", "\u212f"}
+	for _, num := range []string{"0", "-0", "12", "1.5", "0.25", "1e5", "1E+5", "1.5e-3", "1.", "1e", "-"} {
+		for _, r := range runes {
+			for _, shape := range []string{"%s%s", "%s%s1", "[%s%s]", "[%s%s,1]", `{"a":%s%s}`, " %s%s "} {
+				pool = append(pool, []byte(fmt.Sprintf(shape, num, r)))
+				classes = append(classes, "number-rune-follow")
+			}
+		}
+	}
+	for _, r := range runes {
+		for _, d := range []string{"[1%s,2]", "[%s1]", "{%s\"a\":1}", "{\"a\"%s:1}", "tru%s", "true%s", "%snull", "[true%s]"} {
+			pool = append(pool, []byte(fmt.Sprintf(d, r)))
+			classes = append(classes, "rune-in-structure")
+		}
+	}
 	return
 }
 
@@ -92,6 +110,18 @@ func init() {
 	suites["C01"] = func(c *Ctx) (string, error) {
 		var cases []Case
 		pool, cl := c.docPool()
+		// what may follow a number, and multi-byte runes in every structural position (shared with C02)
+		fp, fcl := c.followPool()
+		for i := range fp {
+			if fcl[i] == "number-follow" || fcl[i] == "number-rune-follow" || fcl[i] == "rune-in-structure" {
+				pool = append(pool, fp[i])
+				cl = append(cl, fcl[i])
+			}
+		}
+		pool = append(pool, byteNeighbourhood([]string{"[1.5e+3,true]", " {\"a\":null} ", "\"\\n\"", "-0"})...)
+		for len(cl) < len(pool) {
+			cl = append(cl, "neighbourhood")
+		}
 		for i, d := range pool {
 			h := hx(d)
 			cases = append(cases, apiCase(cl[i], "Valid", h, "-"))
